@@ -21,7 +21,7 @@ COMMON_ASSUMPTIONS = [
 CACHE_RULE = "cache-level histories on the real %s driven one scheduling segment at a time by the baton scheduler (virtual clock, controllable cleanup ticker, recorded callbacks): after EVERY segment the result, the callbacks and a full snapshot (store entries with deadlines, expiry buckets, charges, used, max_cost, sketch rows, doorkeeper words, get-ring, buffer and queue lengths, metrics, closed flags) are compared with the Coq model; hash-map iteration orders and select! arms are reported by the implementation and checked for legality by the model; "
 PROPS = {
     'C01': {
-        'suites': [('policy', 600, 6000, ''), ('stress', 60, 600, '')],
+        'suites': [('policy', 600, 6000, ''), ('stress', 60, 600, ''), ('cachet', 200, 2000, '')],
         'rule': "policy-level histories (adds with costs clustered around the remaining room, cost-changing updates, removes, update_max_cost up/down, clears) on the real LFUPolicy through the facade; state (used, key_costs, max_cost, metrics, sketch, doorkeeper) compared with the model after every step; non-trivial = the case entered the eviction loop at least once; distinct = distinct operation/observation sequences",
         'assumptions': COMMON_ASSUMPTIONS + ["costs are non-negative (the property's quantifier)"],
         'partial': "i64 boundary (D10) excluded by hypothesis; cache-level lifting (every cache step touches the policy only through these operations) is checked by the cache-level correspondence of C06",
@@ -33,13 +33,13 @@ PROPS = {
         'partial': "",
     },
     'C13': {
-        'suites': [('row', 300, 3000, ''), ('sketch', 300, 3000, ''), ('tlfu', 300, 3000, '')],
+        'suites': [('row', 300, 3000, ''), ('sketch', 300, 3000, ''), ('tlfu', 300, 3000, ''), ('cacheqa', 150, 1500, ''), ('caches', 150, 1500, '')],
         'rule': "count-min rows (1-8 bytes, arbitrary byte contents, saturation), sketches for widths 0..70, 127, 129, 1000 with random and code-drawn seeds and hashes with planted collisions, TinyLFU for widths 1..40 and larger across resets and clears; raw row bytes, doorkeeper words and w compared with the model after every step; monitor: estimate >= min(count, 15) between resets; non-trivial = every case (each runs >= 10 mutating steps); distinct = distinct operation/observation sequences",
         'assumptions': COMMON_ASSUMPTIONS + ["hashes are u64 (< 2^64); seeds arbitrary; num_counters <= 2^63 (next_power_of_two overflows beyond)"],
         'partial': "",
     },
     'C14': {
-        'suites': [('bloom', 400, 4000, ''), ('tlfu', 150, 1500, ''), ('bloomfp', 27, 27, '')],
+        'suites': [('bloom', 400, 4000, ''), ('tlfu', 150, 1500, ''), ('bloomfp', 27, 27, ''), ('cacheqa', 100, 1000, '')],
         'rule': "Bloom filters for capacities 1..20000 and target rates 0.5..0.001 (and explicit probe counts), hashes random / differing only in high bits / only in low bits / near 2^64, adds, contains, contains_or_add, reset, clear; sizes, exponent, probe count, shift and the raw words compared with the model after every step; monitor: no false negative; plus a seeded false-positive measurement on the implementation (27 configurations x 20000 probes)",
         'assumptions': COMMON_ASSUMPTIONS + ["little-endian byte order (the Rust code addresses bytes inside u64 words)", "Bloom sizing goes through f64 ln/powf/ceil: the harness recomputes (entries, locs) with the same operations and the model checks get_size and the allocated words against them"],
         'partial': "the false-positive-rate clause is decided by the structural theorems (bits are addressed injectively, add sets exactly the probe positions, contains checks exactly them, the array is the smallest power of two >= the design size) plus a deterministic measurement on the implementation with well-mixed hashes (alarm threshold 10 p + 0.01); a probabilistic theorem about seahash is out of reach",
@@ -57,7 +57,7 @@ PROPS = {
         'partial': "the real-time firing of the ticker ('plus one cleanup interval') is not modelled: ticks are labels; the listing invariant and the reclamation theorems are proved for collision-free runs (every conflict hash 0); an item written before a cleanup, already due at it and admitted only afterwards is reclaimed by the next cleanup (hypothesis no_stale_admission of C05_listings_stay_later_than_the_last_cleanup)",
     },
     'C09': {
-        'suites': [('cachet', 300, 3000, ''), ('cacheq', 100, 1000, ''), ('cacheqa', 100, 1000, ''), ('defaults', 1, 1, ''), ('cachec', 150, 1500, ''), ('stress', 60, 600, '')],
+        'suites': [('cachet', 300, 3000, ''), ('cacheq', 100, 1000, ''), ('cacheqa', 100, 1000, ''), ('defaults', 1, 1, ''), ('cachec', 400, 4000, ''), ('stress', 60, 600, '')],
         'rule': CACHE_RULE % "Cache and AsyncCache" + "validators {always, never, new > old, new mod 3 != old mod 3}, insert_if_present on absent / removed / expired-unswept / still-buffered keys; monitor: insert_if_present on a non-resident key leaves the snapshot bit-for-bit unchanged",
         'assumptions': COMMON_ASSUMPTIONS,
         'partial': "",
